@@ -9,9 +9,9 @@
    The geometry is abstract here: [ins p x] = reb_tree_particle_is_inside_cell for the cell at path p (for p = [] the
    closed box test of reb_simulation_add), [octf p x] = the octant the comparisons choose in the cell at p (for p = []
    reb_get_rootbox_for_particle), [same] = the identical-coordinates test, [flg] = y is NaN.  C15/PathRun.v instantiates
-   them with the exact integer geometry of Tree.v.  Result None = the situations in which the C code reports "Cannot add
-   two particles with the same coordinates", the integer resolution is exhausted, or a back pointer does not point to
-   a leaf (C would corrupt a node): outside the model. *)
+   them with the exact integer geometry of Tree.v.  Result None = the integer resolution is exhausted (or a back pointer does not point to a
+   leaf: C would corrupt a node): outside the model.  "Cannot add two particles with the same coordinates" is modelled
+   (since /repo 950a4b2): the insertion is refused, the tree and N are unchanged, the particle is not counted. *)
 From Coq Require Import ZArith List Bool.
 From RV Require Import Common.Num C15.Tree.
 Import ListNotations.
@@ -73,7 +73,7 @@ Fixpoint padd (fuel : nat) (p : path) (t : option cell) (P : parts) (pt : nat) :
       | S f =>
           let o1 := octf p (px P q) in
           let o2 := octf p (px P pt) in
-          if Nat.eqb o1 o2 && same (px P pt) (px P q) then None
+          if Nat.eqb o1 o2 && same (px P pt) (px P q) then Some (Some (Leaf q), P)   (* refused: error reported, nothing changes *)
           else
             let oct0 := upd empty8 o1 (Some (Leaf q)) in
             let P1 := setbp P q (p ++ [o1]) in
@@ -89,7 +89,12 @@ Fixpoint padd (fuel : nat) (p : path) (t : option cell) (P : parts) (pt : nat) :
           let o := octf p (px P pt) in
           match padd f (p ++ [o]) (nth o oct None) P pt with
           | None => None
-          | Some (d, P1) => Some (Some (Node (n + 1) (upd oct o d)), P1)
+          | Some (d, P1) =>
+              (* since /repo 950a4b2: if (particles[pt].c != NULL) node->pt--;  the back pointer [] stands for NULL *)
+              match pbp P1 pt with
+              | [] => Some (Some (Node n oct), P1)
+              | _ :: _ => Some (Some (Node (n + 1) (upd oct o d)), P1)
+              end
           end
       end
   end.
@@ -102,7 +107,13 @@ Definition psim_add (st : pst) (x : X) : option pst :=
     let P := put (sP st) n (x, []) in
     match padd (S L) [] (sF st) P n with
     | None => None
-    | Some (F', P') => Some (mkS F' P' (S n))
+    | Some (F', P') =>
+        (* reb_tree_add_particle_to_tree clears particles[N].c (here: the path [] put above) and returns whether a leaf took
+           the particle; refused (identical coordinates): return before N++ *)
+        match pbp P' n with
+        | [] => Some (mkS F' P' n)
+        | _ :: _ => Some (mkS F' P' (S n))
+        end
     end.
 
 Definition unlink (st : pst) (q : path) : pst := mkS (tset (sF st) q None) (sP st) (sN st).
